@@ -34,7 +34,7 @@ type Knobs struct {
 	// NoPoison: released pool buffers keep their contents.
 	NoPoison bool `json:"no_poison,omitempty"`
 	// OtterBatch: write batch size of the memory cache backend (0 = shipped 64).
-	OtterBatch  int   `json:"otter_batch,omitempty"`
+	OtterBatch int `json:"otter_batch,omitempty"`
 	// OtterSkewUs: how far the memory cache's expiry sweep lags behind its
 	// one-second clock (0 = 500 µs; close to a second = just ahead of it).
 	OtterSkewUs int64 `json:"otter_skew_us,omitempty"`
@@ -165,12 +165,23 @@ type RangeSpec struct {
 	Start, End, Label string
 }
 
+// TwinSpec: two client subnets that ask the same listener the same number of
+// questions at the same time from Phase3Us on; before that, the second one is
+// silent and the first one has asked only while the global limit was
+// exhausted by others.
+type TwinSpec struct {
+	V1       string `json:"v1"`
+	V2       string `json:"v2"`
+	Phase3Us int64  `json:"phase3_us"`
+}
+
 type LimiterSpec struct {
-	Global int `json:"global,omitempty"`
-	Limit  int `json:"limit,omitempty"`
-	Burst  int `json:"burst,omitempty"`
-	V4Mask int `json:"v4_mask,omitempty"`
-	V6Mask int `json:"v6_mask,omitempty"`
+	Twins  []TwinSpec `json:"twins,omitempty"`
+	Global int        `json:"global,omitempty"`
+	Limit  int        `json:"limit,omitempty"`
+	Burst  int        `json:"burst,omitempty"`
+	V4Mask int        `json:"v4_mask,omitempty"`
+	V6Mask int        `json:"v6_mask,omitempty"`
 }
 
 type ClientConn struct {
